@@ -21,15 +21,22 @@ _EXE = {}
 
 
 def build_exe(variant="plain"):
+    """links harness/c10_io.c against the library objects of the current tree.  The executable is kept outside the
+    library build directory (vlib prunes old build directories while a long run may still need its executable)."""
     if variant not in _EXE:
         d, objs, cc, flags = vlib.build_lib(variant, ("mir.c", "mir-gen.c"))
         src = os.path.join(vlib.HARNESS, "c10_io.c")
-        exe = os.path.join(d, "c10_io")
-        stamp = exe + ".srchash"
-        h = vlib.tree_hash([src])
-        if not os.path.exists(exe) or not os.path.exists(stamp) or open(stamp).read() != h:
-            vlib.cc_link(cc, flags, [src], objs, exe)
-            open(stamp, "w").write(h)
+        bdir = os.path.join(vlib.OUT, "c10bin")
+        os.makedirs(bdir, exist_ok=True)
+        exe = os.path.join(bdir, "c10_io-%s-%s" % (os.path.basename(d), vlib.tree_hash([src])))
+        if not os.path.exists(exe):
+            import glob
+            for old in glob.glob(os.path.join(bdir, "c10_io-%s-*" % variant)):
+                if time.time() - os.path.getmtime(old) > 7200:
+                    os.unlink(old)
+            tmp = exe + ".tmp%d" % os.getpid()
+            vlib.cc_link(cc, flags, [src], objs, tmp)
+            os.replace(tmp, exe)
         _EXE[variant] = exe
     return _EXE[variant]
 
